@@ -123,23 +123,28 @@ theorem rect_stacked (keys : List KeyCol) (n : Nat) (h : Rect n (keys.map (·.da
   obtain ⟨k, hk, rfl⟩ := hc
   simpa using h k.data (mem_map.2 ⟨k, hk, rfl⟩)
 
-/-- every cast of the key columns preserves `<` (hence `=` and `≠`) -/
-def Faithful (keys : List KeyCol) : Prop := ∀ k ∈ keys, CastFaithful k.cast
+/-- every cast of the key columns preserves `<` (hence `=` and `≠`) on the values of its column -/
+def Faithful (keys : List KeyCol) : Prop := ∀ k ∈ keys, CastFaithfulOn k.cast k.data
 
-theorem castFaithful_inj {cast : Int → Int} (h : CastFaithful cast) {a b : Int} (hab : cast a = cast b) : a = b := by
+theorem castFaithful_inj {cast : Int → Int} {data : List Int} (h : CastFaithfulOn cast data) {a b : Int}
+    (ha : a ∈ data) (hb : b ∈ data) (hab : cast a = cast b) : a = b := by
   rcases Int.lt_trichotomy a b with hlt | heq | hgt
-  · have := h a b hlt; omega
+  · have := h a ha b hb hlt; omega
   · exact heq
-  · have := h b a hgt; omega
+  · have := h b hb a ha hgt; omega
 
-theorem castFaithful_lt_iff {cast : Int → Int} (h : CastFaithful cast) (a b : Int) : cast a < cast b ↔ a < b := by
+theorem castFaithful_lt_iff {cast : Int → Int} {data : List Int} (h : CastFaithfulOn cast data) {a b : Int}
+    (ha : a ∈ data) (hb : b ∈ data) : cast a < cast b ↔ a < b := by
   constructor
   · intro hc
     rcases Int.lt_trichotomy a b with hlt | heq | hgt
     · exact hlt
     · subst heq; omega
-    · have := h b a hgt; omega
-  · exact h a b
+    · have := h b hb a ha hgt; omega
+  · exact h a ha b hb
+
+theorem getD_mem {c : List Int} {i : Nat} (h : i < c.length) : c.getD i 0 ∈ c := by
+  simp [List.getD_eq_getElem?_getD, List.getElem?_eq_getElem h]
 
 /-- key tuple of row `i` of the stacked columns -/
 theorem keyAt_stacked (keys : List KeyCol) (n i : Nat) (h : Rect n (keys.map (·.data))) (hi : i < n) :
@@ -154,36 +159,46 @@ theorem keyAt_data (keys : List KeyCol) (i : Nat) : keyAt (keys.map (·.data)) i
   simp [keyAt]
 
 /-- comparing stacked rows = comparing key rows, for faithful casts -/
-theorem tupleLt_stacked : ∀ (keys : List KeyCol), Faithful keys → ∀ (i j : Nat),
+theorem tupleLt_stacked (n : Nat) : ∀ (keys : List KeyCol), Rect n (keys.map (·.data)) → Faithful keys →
+    ∀ (i j : Nat), i < n → j < n →
     tupleLt (keys.map (fun k => k.cast (k.data.getD i 0))) (keys.map (fun k => k.cast (k.data.getD j 0))) =
       tupleLt (keys.map (fun k => k.data.getD i 0)) (keys.map (fun k => k.data.getD j 0))
-  | [], _, _, _ => rfl
-  | k :: ks, hf, i, j => by
-    have hk : CastFaithful k.cast := hf k (by simp)
-    have ih := tupleLt_stacked ks (fun k' hk' => hf k' (by simp [hk'])) i j
+  | [], _, _, _, _, _, _ => rfl
+  | k :: ks, hr, hf, i, j, hi, hj => by
+    have hk : CastFaithfulOn k.cast k.data := hf k (by simp)
+    have hlen : k.data.length = n := hr k.data (by simp)
+    have ih := tupleLt_stacked n ks (fun c hc => hr c (by simp at hc ⊢; exact Or.inr hc))
+      (fun k' hk' => hf k' (by simp [hk'])) i j hi hj
     simp only [map_cons, tupleLt_cons, ih]
-    generalize k.data.getD i 0 = a
-    generalize k.data.getD j 0 = b
-    have h1 := castFaithful_lt_iff hk a b
+    have ha : k.data.getD i 0 ∈ k.data := getD_mem (by omega)
+    have hb : k.data.getD j 0 ∈ k.data := getD_mem (by omega)
+    generalize k.data.getD i 0 = a at ha
+    generalize k.data.getD j 0 = b at hb
+    have h1 := castFaithful_lt_iff hk ha hb
     have h2 : (k.cast a == k.cast b) = (a == b) := by
       by_cases he : a = b
       · simp [he]
-      · have : ¬ k.cast a = k.cast b := fun hc => he (castFaithful_inj hk hc)
+      · have : ¬ k.cast a = k.cast b := fun hc => he (castFaithful_inj hk ha hb hc)
         rw [beq_eq_false_iff_ne.2 he, beq_eq_false_iff_ne.2 this]
     rw [h2]
     congr 1
     exact decide_eq_decide.2 h1
 
-theorem eq_stacked : ∀ (keys : List KeyCol), Faithful keys → ∀ (i j : Nat),
-    (keys.map (fun k => k.cast (k.data.getD i 0)) = keys.map (fun k => k.cast (k.data.getD j 0))) ↔
-      (keys.map (fun k => k.data.getD i 0) = keys.map (fun k => k.data.getD j 0))
-  | [], _, _, _ => by simp
-  | k :: ks, hf, i, j => by
-    have hk : CastFaithful k.cast := hf k (by simp)
-    have ih := eq_stacked ks (fun k' hk' => hf k' (by simp [hk'])) i j
+theorem eq_stacked (n : Nat) : ∀ (keys : List KeyCol), Rect n (keys.map (·.data)) → Faithful keys →
+    ∀ (i j : Nat), i < n → j < n →
+    ((keys.map (fun k => k.cast (k.data.getD i 0)) = keys.map (fun k => k.cast (k.data.getD j 0))) ↔
+      (keys.map (fun k => k.data.getD i 0) = keys.map (fun k => k.data.getD j 0)))
+  | [], _, _, _, _, _, _ => by simp
+  | k :: ks, hr, hf, i, j, hi, hj => by
+    have hk : CastFaithfulOn k.cast k.data := hf k (by simp)
+    have hlen : k.data.length = n := hr k.data (by simp)
+    have ih := eq_stacked n ks (fun c hc => hr c (by simp at hc ⊢; exact Or.inr hc))
+      (fun k' hk' => hf k' (by simp [hk'])) i j hi hj
+    have ha : k.data.getD i 0 ∈ k.data := getD_mem (by omega)
+    have hb : k.data.getD j 0 ∈ k.data := getD_mem (by omega)
     simp only [map_cons, cons.injEq, ih]
     constructor
-    · rintro ⟨h1, h2⟩; exact ⟨castFaithful_inj hk h1, h2⟩
+    · rintro ⟨h1, h2⟩; exact ⟨castFaithful_inj hk ha hb h1, h2⟩
     · rintro ⟨h1, h2⟩; exact ⟨by rw [h1], h2⟩
 
 end Exetera.GroupBy
